@@ -3,6 +3,11 @@
 import json, os
 V = "/verif"
 CHECKS = {
+ "C13": dict(cat="exploration",
+   text="parameter-driven document generation for the five loaders (N-Triples, N-Quads, Turtle, N3, RDF/XML in their line-oriented subsets; comments/blank lines, prefixes only at the top or re-bound mid-document, ;/, shorthand, CRLF) with an exact model oracle (lexical quads after == before + document triples, as multisets), a split-document metamorphic relation (one call == several small documents) and a cross-format relation (same triples in two formats load identically); exhaustive enumeration of format x boundary size (0,1,2,999,1000,1001,1999,2000,2001,2500 lines; 8191/8192/8193/16385 XML triples) x prior content (empty / API / other loader) x rayon pool size (1,2,16), plus random cases",
+   note="trusted: lexical conventions from README and tests; the N3 literal convention is read from a one-statement load (open finding C13-F4: N3 keeps the quotes); thread schedules only sampled through pool sizes; multi-line N3 statements and N3 ',' / 'a' are outside the generated subset",
+   tech="property-based testing (proptest) + exhaustive boundary enumeration; model oracle and metamorphic relations"),
+
  "C18": dict(cat="exploration",
    text="Reasoner::backward_chaining against an independent least-fixpoint model with derivation heights: soundness (every answer ground and entailed), completeness for every matching fact of height <= 10, renaming invariance over 2-3 renamings of the goal's variables (names from the v<n> family included); parts: acyclic programs (a third with filters), 2880 enumerated chain programs of height 1..11 (depth boundary), random recursive programs (19 rule shapes), filter programs",
    note="trusted: reading of the depth guard (depth > 10 per rule nesting); filter semantics restricted to =/!= between variables and numeric comparison on integer-named individuals, judged only where forward chaining agrees with the oracle; programs above an SLD-size estimate of 8000 are dropped and counted",
